@@ -778,7 +778,13 @@ enum BoundKind {
     Activity,
 }
 
-fn bound_kind_of(variable: &str, clauses: &[WhereClause]) -> Option<BoundKind> {
+/// Collects every Core kind the WHERE block binds `variable` to, at any nesting depth.
+///
+/// All of them are collected, not just the first: a pattern such as
+/// `NOT { ?t CONCEPT {..} } ?t ASSERTION {..}` names the target twice, and stopping at the
+/// first match let the leading (even negated) `CONCEPT` pattern shadow the `ASSERTION`
+/// pattern that really binds it, so the immutable-payload guards never saw the Assertion.
+fn bound_kinds_of(variable: &str, clauses: &[WhereClause], kinds: &mut Vec<BoundKind>) {
     for clause in clauses {
         let found = match clause {
             WhereClause::Assertion { variable: v, .. } if v == variable => {
@@ -791,15 +797,17 @@ fn bound_kind_of(variable: &str, clauses: &[WhereClause]) -> Option<BoundKind> {
                 variable: Some(v), ..
             } if v == variable => Some(BoundKind::Proposition),
             WhereClause::Not(inner) | WhereClause::Optional(inner) | WhereClause::Union(inner) => {
-                bound_kind_of(variable, inner)
+                bound_kinds_of(variable, inner, kinds);
+                None
             }
             _ => None,
         };
-        if found.is_some() {
-            return found;
+        if let Some(kind) = found
+            && !kinds.contains(&kind)
+        {
+            kinds.push(kind);
         }
     }
-    None
 }
 
 /// Rejects the UPDATEs an engine must never be asked to perform.
@@ -808,22 +816,25 @@ fn guard_update(statement: &UpdateStatement) -> Result<(), &'static str> {
         ElementRef::Handle(name) => Some(name.as_str()),
         _ => None,
     };
-    let kind = match (target_var, &statement.where_clauses) {
-        (Some(var), Some(clauses)) => bound_kind_of(var, clauses),
-        _ => None,
-    };
+    let mut kinds: Vec<BoundKind> = Vec::new();
+    if let (Some(var), Some(clauses)) = (target_var, &statement.where_clauses) {
+        bound_kinds_of(var, clauses, &mut kinds);
+    }
 
-    for action in &statement.actions {
-        match action {
-            UpdateAction::SetFields(assignments) => {
-                for (field, _) in assignments {
-                    guard_immutable_field(field, kind)?;
+    // The guards must hold for every kind the target is bound to.
+    for kind in kinds.iter().copied().map(Some) {
+        for action in &statement.actions {
+            match action {
+                UpdateAction::SetFields(assignments) => {
+                    for (field, _) in assignments {
+                        guard_immutable_field(field, kind)?;
+                    }
                 }
+                UpdateAction::SetStructural(_) | UpdateAction::UnsetStructural(_) => {
+                    guard_structural_mutation(kind)?
+                }
+                _ => {}
             }
-            UpdateAction::SetStructural(_) | UpdateAction::UnsetStructural(_) => {
-                guard_structural_mutation(kind)?
-            }
-            _ => {}
         }
     }
 
